@@ -95,6 +95,20 @@ public:
 
     ~ReusableArenaBlock()
     {
+        // A block that was allocated but never committed (the constructor
+        // of the object threw) holds no object: put it back on the free
+        // list, as destroyObject() does, so it is not destroyed below.
+        if (this->m_firstFreeBlock != this->m_nextFreeBlock)
+        {
+            void* const     p = this->m_objectBlock + this->m_firstFreeBlock;
+
+            new (p) NextBlock(this->m_nextFreeBlock);
+
+            this->m_nextFreeBlock = this->m_firstFreeBlock;
+
+            --this->m_objectCount;
+        }
+
         size_type removedObjects = 0;
 
         for (size_type i = 0;
